@@ -101,6 +101,8 @@ pub struct MNode {
     pub inner_tainted: bool,
     pub grabbed: bool,
     pub created_round: Round,
+    /// map_ref: round in which the engine compared projections of a value this node had seen
+    pub mapref_exact: Round,
     // ---- per-round scratch
     seen: Round,
     pub must: bool,
@@ -145,6 +147,8 @@ pub struct Model {
     late_invalid: Vec<Tag>,
     old_gen_this_round: Vec<Tag>,
     c03_claim_void: bool,
+    /// nodes needed throughout the current round (reachable without crossing a changed rhs)
+    stable: Vec<bool>,
     pub info: RoundInfo,
     /// contents of every var when the current round's stabilise was called
     call_contents: HashMap<Tag, Val>,
@@ -176,6 +180,7 @@ impl Model {
             late_invalid: vec![],
             old_gen_this_round: vec![],
             c03_claim_void: false,
+            stable: vec![],
             info: RoundInfo::default(),
             call_contents: HashMap::new(),
             eval_memo: HashMap::new(),
@@ -244,6 +249,7 @@ impl Model {
             inner_tainted: tainted,
             grabbed: false,
             created_round: self.round,
+            mapref_exact: NEVER - 1,
             seen: NEVER - 1,
             must: false,
             at_call: NEVER - 1,
@@ -387,10 +393,31 @@ impl Model {
     // ------------------------------------------------------------------
     // cones
 
+    /// would the node still be valid once it is linked to its inputs? (a map-like node with an
+    /// invalid input, a bind with an invalid left-hand side, are invalidated on the spot)
+    fn valid_when_linked(&self, t: Tag, memo: &mut HashMap<Tag, bool>) -> bool {
+        if let Some(v) = memo.get(&t) {
+            return *v;
+        }
+        if !self.has(t) || !self.node(t).valid {
+            memo.insert(t, false);
+            return false;
+        }
+        memo.insert(t, true);
+        let n = self.node(t);
+        let ok = match n.kind {
+            MKind::Var | MKind::Const(_) => true,
+            _ => n.inputs.iter().all(|i| self.valid_when_linked(*i, memo)),
+        };
+        memo.insert(t, ok);
+        ok
+    }
+
     /// nodes necessary given `roots`, following the *current* rhs of binds
     pub fn cone(&self, roots: &[Tag]) -> Vec<Tag> {
         let mut seen = vec![false; self.nodes.len()];
         let mut out = vec![];
+        let mut memo = HashMap::new();
         let mut stack: Vec<Tag> = roots.to_vec();
         while let Some(t) = stack.pop() {
             if !self.has(t) || seen[t as usize] {
@@ -399,7 +426,7 @@ impl Model {
             seen[t as usize] = true;
             out.push(t);
             let n = self.node(t);
-            if !n.valid {
+            if !n.valid || !self.valid_when_linked(t, &mut memo) {
                 continue;
             }
             stack.extend(n.inputs.iter().copied());
@@ -500,6 +527,12 @@ impl Model {
                 MKind::Bind => {
                     if !self.is_valid_now(n.inputs[0]) {
                         ok = false;
+                        // the engine reaches this bind only if it is still needed when the
+                        // invalidation arrives; otherwise it just drops out of the cone and
+                        // nodes exported from it live on
+                        if self.subtree_grabbed(t) {
+                            self.give_up("cascading invalidation of a bind with exported nodes");
+                        }
                     }
                 }
                 MKind::Var | MKind::Const(_) => {}
@@ -613,6 +646,32 @@ impl Model {
             }
             bs.last_closure_round = r;
         }
+        // C03 speaks about binds that are needed throughout the stabilise in which their
+        // left-hand side changes. A bind that left the cone in the middle of it (it hangs
+        // under the right-hand side of a bind that re-ran) and came back may legitimately
+        // find nodes of its previous generation already recomputed. "Needed throughout" =
+        // reachable from the roots without crossing a right-hand side that changed.
+        let mut stable = vec![false; self.nodes.len()];
+        {
+            let mut stack: Vec<Tag> = roots.to_vec();
+            while let Some(t) = stack.pop() {
+                if !self.has(t) || stable[t as usize] {
+                    continue;
+                }
+                stable[t as usize] = true;
+                let n = self.node(t);
+                if !n.valid && n.invalid_round != Some(r) {
+                    continue;
+                }
+                stack.extend(n.inputs.iter().copied());
+                if let Some(b) = &n.bind {
+                    if b.rhs == b.rhs_at_call {
+                        stack.extend(b.rhs.iter().copied());
+                    }
+                }
+            }
+        }
+        self.stable = stable;
         // 3. must-set: demand-driven from the roots
         for t in roots {
             self.ensure(*t);
@@ -640,20 +699,6 @@ impl Model {
         for t in order.iter() {
             self.resolve(*t);
         }
-        // C03 speaks about binds that are needed throughout the stabilise in which their
-        // left-hand side changes; a bind that only became needed in the middle of it may
-        // legitimately find nodes of its previous generation already recomputed
-        self.c03_claim_void = false;
-        let reran: Vec<Tag> = self.bind_runs.keys().copied().collect();
-        for b in reran {
-            if self.has(b) {
-                let n = self.node(b);
-                if n.created_round < r && !(n.at_call == r && n.seen == r && n.must) {
-                    self.c03_claim_void = true;
-                    self.info.c03_void += 1;
-                }
-            }
-        }
         // 5. nothing outside that set may have run; nothing invalid may have run
         let ran: Vec<Tag> = self.info.ran_tags.clone();
         for t in ran {
@@ -668,8 +713,33 @@ impl Model {
                 );
                 self.fail("C05", "ran-outside-cone", m);
             }
-            if !n.valid && !(n.invalid_round == Some(r) && self.c03_claim_void) {
-                let inv_now = n.invalid_round == Some(r);
+            let inv_now = n.invalid_round == Some(r);
+            // which re-run invalidated it?
+            let mut cause: Option<Tag> = None;
+            if inv_now {
+                let mut cur = n.clone();
+                for _ in 0..16 {
+                    let Some((b, g)) = cur.scope else { break };
+                    if !self.has(b) {
+                        break;
+                    }
+                    let bn = self.node(b);
+                    let cur_gen = bn.bind.as_ref().and_then(|x| x.gen);
+                    if self.bind_runs.contains_key(&b) && cur_gen != Some(g) {
+                        cause = Some(b);
+                        break;
+                    }
+                    if bn.valid || bn.invalid_round != Some(r) {
+                        break;
+                    }
+                    cur = bn.clone();
+                }
+            }
+            let claim = !inv_now || cause.map_or(false, |b| self.stable.get(b as usize).copied().unwrap_or(false) && self.node(b).at_call == r);
+            if !n.valid && !claim {
+                self.info.c03_void += 1;
+            }
+            if !n.valid && claim {
                 let m = format!(
                     "round {r}: function of node #{t} ({:?}, created by {:?}) ran although the node is invalid{}",
                     n.kind,
@@ -840,10 +910,20 @@ impl Model {
                 if self.chain_root_is_with_old(n.inputs[0]) {
                     return Tri::Yes;
                 }
+                // the comparison of projections happens when the root of the map_ref chain
+                // reports its change to linked, up-to-date parents, and is handed up the chain
+                let inp_reports = match inp.kind {
+                    MKind::MapRef(_) => inp.mapref_exact == r,
+                    _ => inp.changed == Tri::Yes && inp.ran == Tri::Yes,
+                };
                 let exact = n.at_call == r
+                    && self.stable.get(t as usize).copied().unwrap_or(false)
                     && n.pre_run.0 != NEVER
                     && tri_gt(inp.pre_chg, n.pre_run) == Tri::No
-                    && inp.changed == Tri::Yes;
+                    && inp_reports;
+                if exact {
+                    self.node_mut(t).mapref_exact = r;
+                }
                 let old_p = match (&inp.round_old, &n.kind) {
                     (Cache::Known(o), MKind::MapRef(k)) => Some(proj(*k, o).clone()),
                     _ => None,
@@ -971,6 +1051,15 @@ impl Model {
         }
         if !self.is_valid_now(t) {
             return;
+        }
+        {
+            // a node that finds an invalid input when it is linked is invalidated on the spot,
+            // before any of its other inputs gets a chance to run on its behalf
+            let mut memo = HashMap::new();
+            if !self.valid_when_linked(t, &mut memo) {
+                self.invalidate(t, false);
+                return;
+            }
         }
         let r = self.round;
         let n = self.node(t).clone();
